@@ -383,6 +383,11 @@ def run(ctx):
     MACRO_DIAG = [('#define S(x) #x\nint S(x);\n', {1, 2}), ('#define S(x) #x\n\nint a = 1;\nint S(a\n b);\n', {1, 4, 5}),
                   ('#define M 1 +\n\nint v = M;\n', {1, 3}), ('#define F(a, b) a b\nint F(x,\n 2);\n', {1, 2, 3}),
                   ('#define V(...) #__VA_ARGS__ __VA_ARGS__\nint q = V(1,\n2);\n', {1, 2, 3})]
+    # the same under #line: the file name of a token is the one in force where the token was scanned (tokens of a replacement
+    # list keep it when the macro is used after another #line); allowed = (file, line) of the definition or of the invocation
+    MACRO_DIAG += [('#line 7 "defs.h"\n#define BAD 1 +\n#line 3 "main.c"\nint v = BAD;\n', {('defs.h', 7), ('main.c', 3)}),
+                   ('#line 20 "a.h"\n#define S(x) #x\n#define T int\n# 5 "b.c"\nT S(q);\n', {('a.h', 20), ('b.c', 5)}),
+                   ('# 1 "x.h" 1\n#define E }\n# 9 "y.c" 2\nint f(void) { return 1; E E\n', {('x.h', 1), ('y.c', 9)})]
     for k, (text, lines) in enumerate(MACRO_DIAG):
         path = os.path.join(work, 'md%d.c' % k)
         open(path, 'w').write(text)
@@ -390,7 +395,11 @@ def run(ctx):
         first = err.decode('latin-1').split('\n')[0]
         m = re.match(r'^(.*):(\d+):(\d+): error: ', first)
         stats['diag_programs'] += 1
-        if rc != 1 or not m or m.group(1) != path or int(m.group(2)) not in lines:
+        if lines and isinstance(next(iter(lines)), tuple):
+            okloc = bool(m) and (m.group(1), int(m.group(2))) in lines
+        else:
+            okloc = bool(m) and m.group(1) == path and int(m.group(2)) in lines
+        if rc != 1 or not okloc:
             dbad += 1
             ctx.violation('diagnostic on a token produced by macro replacement does not name a line of the invocation or definition: %r (rc=%d)' % (first[:160], rc),
                           text, 'c', key='diag:macro-token-location')
